@@ -67,8 +67,21 @@ def load(modname):
     """Import scippneutron.<modname> from /repo/src (bare parent packages)."""
     install_shim()
     full = 'scippneutron.' + modname if not modname.startswith('scippneutron') else modname
-    # make sure the finder sees bare packages' __path__
-    m = importlib.import_module(full)
+    # regexes compiled at import time of the module under test must follow symbolic strings too: while the module
+    # body runs, re.compile hands out SymPattern (delegates to the real pattern for ordinary strings)
+    import re as _re
+    real_compile = _re.compile
+    if full not in sys.modules:
+        from .symre import SymPattern
+
+        def _compile(pattern, flags=0):
+            return SymPattern(pattern, flags) if isinstance(pattern, str) else real_compile(pattern, flags)
+
+        _re.compile = _compile
+    try:
+        m = importlib.import_module(full)
+    finally:
+        _re.compile = real_compile
     return m
 
 
